@@ -200,7 +200,8 @@ fn process_dir(
         match result.map(|r| WalkEntry::from_walkdir(r, config.follow)) {
             Some(Err(err)) => {
                 ret = 1;
-                writeln!(&mut stderr(), "Error: {err}").unwrap();
+                // A diagnostic that cannot be written must not stop the walk.
+                let _ = writeln!(&mut stderr(), "Error: {err}");
             }
             Some(Ok(entry)) => {
                 if entry.depth() < config.min_depth {
